@@ -21,7 +21,7 @@ func init() {
 		Run:   runC06,
 		Explanation: "Decides clauses C06.1-C06.4 of DESIGN.md: (1) the pod constructor chain stamps identity on every path: a controller reference built by metav1.NewControllerRef(set, controllerKind), name = getPodName(set, ordinal) for the constructor's own ordinal, hostname = name, subdomain = spec.serviceName, namespace, the pod-name label, the revision label (versioned constructor, C07.4), and a volume per claim template whose claim name is getPersistentVolumeClaimName(set, template, ordinal); the two name functions are fixed Sprintf formats over (template name, set name, ordinal); " +
 			"(2) claims before pod: the pod Create is reachable only through a successful createPersistentVolumeClaims(set, pod) for the same pod; the claim loop covers every claim of the pod, cannot be left early, reaches the claim Create whenever the lister says NotFound, and aggregates every error (C09.1); (3) no Delete, DeleteCollection, Update, UpdateStatus, Patch or Apply on PersistentVolumeClaims anywhere in the repository's production code (positive control: the one Create); " +
-			"(4) the claim builder sets name, namespace and the selector's match labels on every path, for every template. NOT decided: name equality over scale-in/scale-out histories as a value-level fact (it follows from the purity of the name functions).",
+			"(4) the claim builder sets name, namespace and the selector's match labels on every path, for every template. (5) the pod revision label is stored by setPodRevision only, which is called by the versioned constructor only; in the update primitive the pod write is reached only through a successful createPersistentVolumeClaims once updateStorage has run. NOT decided: name equality over scale-in/scale-out histories as a value-level fact (it follows from the purity of the name functions).",
 	})
 }
 
